@@ -44,15 +44,15 @@ func tmpdirBoth(ctx *Ctx, w *Worker, id ident) (tdRes, bool) {
 	}
 	sum := sha1.Sum([]byte(parts[1]))
 	want := parts[0] + "." + hex.EncodeToString(sum[:])
+	// segment validity on the real value (whatever the model says)
+	if strings.Contains(real, "/") || real == "." || real == ".." || len(real) > 255 || len(real) == 0 {
+		ctx.Res.Violate(Violation{What: fmt.Sprintf("temp dir name %q is not a single valid path segment of at most 255 bytes (len %d)", real, len(real)), Class: "c14.segment", Witness: id})
+	}
 	if real != want {
 		ctx.Res.Disagree(Violation{What: fmt.Sprintf("TempDir(): real=%q, model prefix+sha1(preimage)=%q (preimage %q)", real, want, parts[1]), Class: "c14.model", Witness: id})
 		// the pairwise check below still uses the real value (with the model's preimage, which then cannot
 		// explain a collision as the known concatenation ambiguity unless it is equal too)
 		return tdRes{real, parts[0], parts[1]}, true
-	}
-	// segment validity on the real value
-	if strings.Contains(real, "/") || real == "." || real == ".." || len(real) > 255 || len(real) == 0 {
-		ctx.Res.Violate(Violation{What: fmt.Sprintf("temp dir name %q is not a single valid path segment of at most 255 bytes (len %d)", real, len(real)), Class: "c14.segment", Witness: id})
 	}
 	return tdRes{real, parts[0], parts[1]}, true
 }
@@ -89,6 +89,10 @@ func checkC14(ctx *Ctx) {
 	ids = append(ids, ident{Name: "j", Ins: map[string]string{"in": "carrier"}, Subs: map[string][]string{"in": {"b", "a"}}})
 	ids = append(ids, ident{Name: "j", Ins: map[string]string{"in": "carrier"}, Subs: map[string][]string{"in": {}}})
 	// a process name beyond the 214-byte fold: the identity must still enter the hash
+	// every name length around the 255-byte limit of a path segment (prefix and hash suffix included)
+	for l := 190; l <= 245; l++ {
+		ids = append(ids, ident{Name: strings.Repeat("n", l), Ins: map[string]string{"in": "a"}})
+	}
 	longName := strings.Repeat("longprocessname", 15) // 225 bytes
 	ids = append(ids, ident{Name: longName, Ins: map[string]string{"in": "a"}}, ident{Name: longName, Ins: map[string]string{"in": "b"}},
 		ident{Name: longName, Ins: map[string]string{"in": "a"}, Params: map[string]string{"k": "1"}}, ident{Name: longName, Ins: map[string]string{"in": "a"}, Params: map[string]string{"k": "2"}})
